@@ -18,6 +18,7 @@
 //   VERIF_SHIM_LOG=<path>    one line per call the shim acted on (never draws from the
 //                            PRNG, never reads a clock)
 #define _GNU_SOURCE
+#include <dirent.h>
 #include <dlfcn.h>
 #include <errno.h>
 #include <fcntl.h>
@@ -251,6 +252,19 @@ int openat64(int dirfd, const char *path, int flags, ...) {
   mode_t mode = 0;
   if (flags & (O_CREAT | O_TMPFILE)) { va_list ap; va_start(ap, flags); mode = va_arg(ap, mode_t); va_end(ap); }
   return open_common(dirfd, path, flags | O_LARGEFILE, mode);
+}
+
+DIR *opendir(const char *name) {
+  shim_init();
+  static DIR *(*real_opendir)(const char *);
+  if (!real_opendir) real_opendir = dlsym(RTLD_NEXT, "opendir");
+  int hit = fire(OP_OPEN, 0, name ? name : "");
+  if (hit >= 0 && rules[hit].act == ACT_ERR) {
+    shim_log("opendir path=%s -> errno %ld", name, rules[hit].arg);
+    errno = (int)rules[hit].arg;
+    return NULL;
+  }
+  return real_opendir(name);
 }
 
 int close(int fd) {
